@@ -420,8 +420,8 @@ def c11_slices(tier):
         **dict(base, DomH3="{4}", DomH1="{3}", DomH2="{5}", Sweep="TRUE"))))
     # A: every helper set and target (existing or new), all keys/polynomials, two blinding values
     sl.append(dict(name="A_sets_values", module="C11", invariants=C11_INV, consts=consts(
-        7, Shapes="{<<3,2>>, <<4,2>>}" if th else "{<<3,2>>}", IdSets="{{2,3,5}, {1,2,4,6}}", KeyChoices="{1,3,6}",
-        CoeffChoices=ZQ(7), DeltaChoices="{0,4}", NewIds="{1,3,6}" if th else "{1,6}", Scenarios='{"ok","bad"}', MaxExtraH="2", **base)))
+        7, Shapes="{<<3,2>>, <<4,2>>}" if th else "{<<3,2>>}", IdSets="{{2,3,5}, {1,2,4,6}}", KeyChoices="{1,6}" if th else "{1,3,6}",
+        CoeffChoices="{0,1,3,6}" if th else ZQ(7), DeltaChoices="{0,4}", NewIds="{1,3,6}" if th else "{1,6}", Scenarios='{"ok","bad"}', MaxExtraH="2", **base)))
     # B: every blinding value
     sl.append(dict(name="B_blinding", module="C11", invariants=C11_INV, consts=consts(
         7, Shapes="{<<3,2>>, <<3,3>>}" if th else "{<<3,2>>}", IdSets="{{2,3,5}}", KeyChoices="{3}", CoeffChoices="{5}",
